@@ -218,7 +218,7 @@ static inline void gen_layout(Rng &r, Layout &l, int kind, int max_ch) {
     case K_SINGLE: l.ch = (int)r.range(1, 2); l.family = 0; l.streams = 1; l.coupled = l.ch - 1; break;
     case K_MS: {
       // explicit layout: streams, coupled, mapping with duplicates and 255 (silent) entries
-      l.streams = (int)r.range(1, std::min(max_ch > 8 ? 12 : 4, max_ch));   // (many-stream layouts only where the caller asks for more than 8 channels)
+      l.streams = (int)r.range(1, std::min(max_ch >= 12 ? 12 : 4, max_ch));   // (many-stream layouts only where the caller asks for 12 channels or more: the tight multistream sessions)
       l.coupled = (int)r.range(0, l.streams);
       int src = l.streams + l.coupled;
       l.ch = (int)r.range(1, std::min(max_ch, src + 2));
